@@ -208,6 +208,13 @@ def install(vm):
     def m_assume(vm, s, args, kw):
         c = truth(args[0])
         vm.assume(IMPLIES(s.guard, c))
+        if c is not TRUE:
+            # the excluded worlds leave this state for good (values computed there would be garbage)
+            from fractions import Fraction
+            from .vm import _fork_ids
+            s.orig = s.orig + ((s.guard, Fraction(1, 2), next(_fork_ids)),)
+            s.guard = AND(s.guard, c)
+            vm.lost = True
         return None
 
     def m_check(vm, s, args, kw):
